@@ -1230,7 +1230,7 @@ def translate_update_expression(update_expression, input_variables_map, string_l
 
 
 def translate_select_expression(select_expression):
-    regexp_for_as_column_alias = r' +(AS|as) +([a-zA-Z][a-zA-Z0-9_]*) *(?=$|,)'
+    regexp_for_as_column_alias = r' +([aA][sS]) +([a-zA-Z][a-zA-Z0-9_]*) *(?=$|,)'
     expression_without_counting_stars = replace_star_count(select_expression)
 
     # TODO the problem with these replaments is that they happen on global level, the right way to do this is to split the query into columns first by using stack-parsing.
